@@ -159,7 +159,8 @@ struct Machine
   // ---------------- operations (applied to library object and reference alike)
   struct Op
   {
-    int kind;  // 0 concat_local (identity-start atom), 1 concat_global, 2 crop, 3 concat_local with a fixed atom (any start)
+    int kind;  // 0 concat_local (identity-start atom), 1 concat_global, 2 crop, 3 concat_local with a fixed atom (any start),
+               // 4 concat_global of the inner part [0.3 T, 0.8 T] of an atom (a cropped operand: segments with T0 != 0, Del != 1)
     int atom;
     double ta, tb;
     bool loc;
@@ -168,6 +169,7 @@ struct Machine
       if (kind == 0) return mc::fmt("concat_local(atom%d anchored at identity)", atom);
       if (kind == 1) return mc::fmt("concat_global(atom%d anchored at end())", atom);
       if (kind == 3) return mc::fmt("concat_local(atom%d as is: non-identity start)", atom);
+      if (kind == 4) return mc::fmt("concat_global(atom%d anchored to continue at end(), cropped to its inner part [0.3T, 0.8T])", atom);
       return mc::fmt("crop(%a~%.10g, %a~%.10g, %s)", ta, ta, tb, tb, loc ? "localize" : "global");
     }
   };
@@ -189,6 +191,16 @@ struct Machine
       st.r.jumps.push_back(st.r.tmax());
       st.s.concat_local(*atoms[size_t(o.atom)]);
       st.r.pcs.push_back({atoms[size_t(o.atom)], E, 0, (L)atoms[size_t(o.atom)]->t_max()});
+    } else if (o.kind == 4) {
+      // the operand of concat_global is itself the result of a (non-localised) crop strictly inside a segment; it is anchored
+      // so that it starts where this spline ends. Its reference piece is the anchored full curve on [0.3 T, 0.8 T].
+      const Sp & loc  = *local_atoms[size_t(o.atom)];
+      const double T  = loc.t_max(), ta = 0.3 * T, tb = 0.8 * T;
+      const G anchor  = smooth::composition(st.s.end(), smooth::inverse(loc(ta)));
+      auto full       = std::make_shared<const Sp>(factories[size_t(o.atom)](anchor));
+      const Sp x2     = full->crop(ta, tb, false);
+      st.s.concat_global(x2);
+      st.r.pcs.push_back({full, M::Id(), (L)ta, (L)tb - (L)ta});
     } else if (o.kind == 1) {
       // global concatenation of a curve that starts where this one ends (a Spline is a continuous curve): the appended
       // spline is the atom's curve anchored at end(), as a fresh object that then also serves as the reference of its piece
@@ -234,6 +246,8 @@ struct Machine
     }
     for (int a = 0; a < na; ++a)
       if (nonidentity_start[size_t(a)] && (full || a == 1)) ops.push_back({3, a, 0, 0, false});
+    for (int a = 0; a < na; ++a)
+      if (full || a == 0 || a == na - 1) ops.push_back({4, a, 0, 0, false});
     std::vector<double> ts;
     const double tm = st.s.t_max();
     if (tm > 0) {
